@@ -1672,24 +1672,81 @@ func r13WindingOrder(c *core.Ctx) {
 	dd := findCallsByName(fn, "dedupeInnersOuters")
 	mi := findCallsByName(fn, "matchInnersToPolygons")
 	rv := findCallsByName(fn, "reverseWindingOrderIfConfigured")
+	// matching and reversal may stand together in a helper whose result is what they worked on
+	var piped *ssa.Call // the value that is stored for the level
+	okInner := true
+	if len(dd) == 1 && len(mi) == 0 && len(rv) == 0 {
+		for _, b := range fn.Blocks {
+			for _, in := range b.Instrs {
+				call, ok := in.(*ssa.Call)
+				if !ok {
+					continue
+				}
+				h := call.Call.StaticCallee()
+				if h == nil || len(h.Blocks) == 0 || h.Pkg != fn.Pkg {
+					continue
+				}
+				hm, hr := findCallsByName(h, "matchInnersToPolygons"), findCallsByName(h, "reverseWindingOrderIfConfigured")
+				if len(hm) != 1 || len(hr) != 1 {
+					continue
+				}
+				if piped != nil {
+					okInner = false
+				}
+				piped = call
+				mi, rv = hm, hr
+				okInner = okInner && core.Dominates(hm[0], hr[0]) && callTakes(hr[0], hm[0])
+				for _, hb := range h.Blocks {
+					for _, hin := range hb.Instrs {
+						if ret, isRet := hin.(*ssa.Return); isRet {
+							if len(ret.Results) != 1 || ret.Results[0] != ssa.Value(hm[0]) || !core.Dominates(hr[0], ret) {
+								okInner = false
+							}
+						}
+					}
+				}
+				for _, r := range *hm[0].Referrers() {
+					if c2, isC := r.(*ssa.Call); isC && c2 != hr[0] {
+						if _, isLen := isBuiltinCall(c2, "len"); !isLen {
+							okInner = false
+						}
+					}
+				}
+			}
+		}
+	}
 	if len(dd) != 1 || len(mi) != 1 || len(rv) != 1 {
 		c.Bad(R, "pipeline/"+aps.Name, aps.Decl.Pos(), "expected one call each of dedupeInnersOuters, matchInnersToPolygons, reverseWindingOrderIfConfigured")
 		return
 	}
 	// order and value identity: reverse(x) where x = matchInners(...) result; stored value is x
-	okOrder := core.Dominates(dd[0], mi[0]) && core.Dominates(mi[0], rv[0]) && callTakes(rv[0], mi[0])
-	stored := false
-	for _, r := range *mi[0].Referrers() {
-		if mu, ok := r.(*ssa.MapUpdate); ok && mu.Value == ssa.Value(mi[0]) {
-			stored = core.Dominates(rv[0], mu)
-		}
-	}
-	// nothing between reversal and store rewrites the polygons: no other call takes the value after rv
+	var okOrder, stored bool
 	after := 0
-	for _, r := range *mi[0].Referrers() {
-		if call, ok := r.(*ssa.Call); ok && call != rv[0] && core.Dominates(rv[0], call) {
-			if _, isLen := isBuiltinCall(call, "len"); !isLen {
-				after++
+	if piped == nil {
+		okOrder = core.Dominates(dd[0], mi[0]) && core.Dominates(mi[0], rv[0]) && callTakes(rv[0], mi[0])
+		for _, r := range *mi[0].Referrers() {
+			if mu, ok := r.(*ssa.MapUpdate); ok && mu.Value == ssa.Value(mi[0]) {
+				stored = core.Dominates(rv[0], mu)
+			}
+		}
+		// nothing between reversal and store rewrites the polygons: no other call takes the value after rv
+		for _, r := range *mi[0].Referrers() {
+			if call, ok := r.(*ssa.Call); ok && call != rv[0] && core.Dominates(rv[0], call) {
+				if _, isLen := isBuiltinCall(call, "len"); !isLen {
+					after++
+				}
+			}
+		}
+	} else {
+		okOrder = okInner && core.Dominates(dd[0], piped)
+		for _, r := range *piped.Referrers() {
+			if mu, ok := r.(*ssa.MapUpdate); ok && mu.Value == ssa.Value(piped) {
+				stored = true
+			}
+			if call, ok := r.(*ssa.Call); ok {
+				if _, isLen := isBuiltinCall(call, "len"); !isLen {
+					after++
+				}
 			}
 		}
 	}
